@@ -177,7 +177,52 @@ def el_use_partial(g):
     return f'<defs><rect id="u2" width="{g.s()}" height="{g.s()}"/></defs><use href="#u2" x="{g.p()}"/><use href="#u2" y="{g.p()}"/><use href="#u2"/>'
 
 
-LEAF = {"partial": el_partial, "openclose": el_openclose, "use-partial": el_use_partial, "rect": el_rect, "rect0": el_rect0, "circle": el_circle, "ellipse": el_ellipse, "line": el_line, "polyline": el_polyline, "polygon": el_polygon, "path-abs": el_path_abs,
+def el_mixed_units(g):
+    # every numeric slot of an element may independently be a plain number, a percentage or a length with unit
+    return (f'<circle cx="50%" cy="{g.p()}" r="{g.s()}"/><circle cx="{g.p()}" cy="10mm" r="{g.s()}"/><ellipse cx="{g.p()}" cy="25%" rx="{g.s()}" ry="{g.s()}"/>'
+            f'<ellipse cx="1cm" cy="{g.p()}" rx="{g.s()}" ry="2mm"/><rect x="5%" y="{g.p()}" width="{g.s()}" height="{g.s()}"/><rect x="{g.p()}" y="{g.p()}" width="50%" height="{g.s()}"/>'
+            f'<line x1="{g.p()}" y1="10%" x2="{g.p()}" y2="{g.p()}"/><circle cx="{g.p()}" cy="{g.p()}" r="5%"/><image href="a.png" x="{g.p()}" y="1em" width="{g.s()}" height="{g.s()}"/>')
+
+
+def el_nonshape_attrs(g):
+    # elements svgdx does not lay out keep the geometry attributes SVG 1.1 defines for them, verbatim - also when written as
+    # empty elements carrying a complete numeric extent (gradient vector, filter / primitive subregion, pattern tile, mask region)
+    return ('<defs>'
+            f'<linearGradient id="ns0" x1="{g.p()}" y1="{g.p()}" x2="{g.p()}" y2="{g.p()}" href="#ns1"/>'
+            f'<linearGradient id="ns0b" x1="0" y1="0" x2="1" y2="0"/>'
+            f'<radialGradient id="ns1" cx="{g.p()}" cy="{g.p()}" r="{g.s()}" fx="{g.p()}" fy="{g.p()}"/>'
+            f'<pattern id="ns2" x="{g.p()}" y="{g.p()}" width="{g.s()}" height="{g.s()}" href="#ns2b"/>'
+            f'<mask id="ns3" x="{g.p()}" y="{g.p()}" width="{g.s()}" height="{g.s()}"/>'
+            f'<filter id="ns4" x="{g.p()}" y="{g.p()}" width="{g.s()}" height="{g.s()}" href="#ns4b"/>'
+            f'<filter id="ns4b"><feOffset x="{g.p()}" y="{g.p()}" width="{g.s()}" height="{g.s()}" dx="{g.p()}" dy="{g.p()}" in="SourceGraphic"/>'
+            f'<feFlood x="{g.p()}" y="{g.p()}" width="{g.s()}" height="{g.s()}" flood-color="red"/>'
+            f'<feGaussianBlur x="{g.p()}" y="{g.p()}" width="{g.s()}" height="{g.s()}" stdDeviation="{g.s(1)}"/>'
+            f'<feImage x="{g.p()}" y="{g.p()}" width="{g.s()}" height="{g.s()}" href="a.png"/>'
+            f'<feOffset dx="{g.p()}" dy="{g.p()}"/>'
+            f'<feDiffuseLighting><fePointLight x="{g.p()}" y="{g.p()}" z="{g.p()}"/></feDiffuseLighting>'
+            f'<feSpecularLighting><feSpotLight x="{g.p()}" y="{g.p()}" z="{g.p()}" pointsAtX="{g.p()}" pointsAtY="{g.p()}" pointsAtZ="0"/></feSpecularLighting></filter>'
+            f'<cursor id="ns5" x="{g.p()}" y="{g.p()}" href="c.png"/>'
+            f'<marker id="ns6" refX="{g.p()}" refY="{g.p()}" markerWidth="{g.s()}" markerHeight="{g.s()}"/>'
+            f'<view id="ns7" viewBox="{g.p()} {g.p()} {g.s()} {g.s()}"/>'
+            '</defs>')
+
+
+def el_text_dx_carriers(g):
+    # dx / dy are SVG attributes of the text content elements (text, tspan, tref, altGlyph, glyphRef) and of feOffset / feDropShadow
+    return (f'<defs><text id="tr0" x="0" y="0">ref</text><altGlyphDef id="gl"><glyphRef href="#g1" dx="{g.p()}" dy="{g.p()}"/><glyphRef href="#g1" x="{g.p()}" y="{g.p()}" dx="{g.p()}" dy="{g.p()}"/></altGlyphDef>'
+            f'<filter id="ds"><feDropShadow dx="{g.p()}" dy="{g.p()}" stdDeviation="1"/><feDropShadow x="{g.p()}" y="{g.p()}" width="{g.s()}" height="{g.s()}" dx="{g.p()}" dy="{g.p()}"/></filter></defs><text x="{g.p()}" y="{g.p()}" dx="{g.p()}" dy="{g.p()}">a<tspan dx="{g.p()}" dy="{g.p()}">b</tspan>'
+            f'<tref href="#tr0" dx="{g.p()}" dy="{g.p()}"/><altGlyph href="#gl" x="{g.p()}" y="{g.p()}" dx="{g.p()}" dy="{g.p()}">c</altGlyph></text>')
+
+
+def el_transforms(g):
+    # the whole SVG 1.1 transform vocabulary, in its documented capitalisation, alone and in lists
+    return (f'<rect width="{g.s()}" height="{g.s()}" transform="skewX({g.p()})"/><rect width="{g.s()}" height="{g.s()}" transform="skewY({g.p()}) translate({g.p()})"/>'
+            f'<circle r="{g.s()}" transform="rotate({g.p()})"/><path d="M 0 0 L {g.p()} {g.p()}" transform="matrix(1 0 0 1 {g.p()} {g.p()}) scale({g.s()}, {g.s()})"/>'
+            f'<g transform="translate({g.p()},{g.p()}) rotate({g.p()} {g.p()} {g.p()})"><line x1="0" y1="0" x2="{g.p()}" y2="{g.p()}" transform="scale({g.s()})"/></g>'
+            f'<text x="{g.p()}" y="{g.p()}" transform="rotate({g.p()})">t</text><use href="#trf" x="{g.p()}" y="{g.p()}" transform="skewX({g.p()})"/><defs><rect id="trf" width="1" height="1"/></defs>')
+
+
+LEAF = {"mixed-units": el_mixed_units, "nonshape-attrs": el_nonshape_attrs, "text-dx-carriers": el_text_dx_carriers, "transforms": el_transforms, "partial": el_partial, "openclose": el_openclose, "use-partial": el_use_partial, "rect": el_rect, "rect0": el_rect0, "circle": el_circle, "ellipse": el_ellipse, "line": el_line, "polyline": el_polyline, "polygon": el_polygon, "path-abs": el_path_abs,
         "path-rel": el_path_rel, "path-arc": el_path_arc, "text": el_text, "text-tspan": el_text_tspan, "use": el_use, "image": el_image, "foreignObject": el_foreign,
         "linearGradient": el_lingrad, "radialGradient": el_radgrad, "marker": el_marker, "clipPath": el_clip, "mask": el_mask, "pattern": el_pattern, "filter": el_filter, "symbol": el_symbol,
         "title": el_title, "units": el_units, "style": el_style}
